@@ -216,11 +216,38 @@ type ZEdgeNames struct {
 	B     int32
 }
 
+// ZAcronyms: names whose second letter is a capital too, with digits and underscores, a single capital.
+type ZAcronyms struct {
+	ID       int32
+	URLPath  int32
+	HTTPCode int32
+	X        int32
+	A1       int32
+	Snake_Id int32
+	UserID   int32
+	UserId   int32
+}
+
 // H_C02_field_names_and_aliases: field names starting with the first and last letters of the alphabet are
 // lower-cased like any other; slices that are prefixes of one another are separate lists on the wire.
 func H_C02_field_names_and_aliases() {
 	x := vInt32("x")
-	if vChoice("what", 2) == 0 {
+	what := vChoice("what", 3)
+	if what == 2 {
+		// only the first letter is lower-cased, whatever follows it; names equal under case folding stay apart
+		v := &ZAcronyms{ID: x, URLPath: 2, HTTPCode: 3, X: 4, A1: 5, Snake_Id: 6, UserID: 7, UserId: 8}
+		typMap, nameMap := vExtract(v)
+		bs, err := ToBytes(v, nameMap)
+		vAssert("encode-noerr", err == nil)
+		exp := &AV{Kind: 'O', Type: "ZAcronyms", Fields: []string{"iD", "uRLPath", "hTTPCode", "x", "a1", "snake_Id", "userID", "userId"},
+			Items: []*AV{avInt(x), avInt(2), avInt(3), avInt(4), avInt(5), avInt(6), avInt(7), avInt(8)}, Ord: 0}
+		checkWellFormed(bs, exp)
+		out, err := ToObject(bs, typMap)
+		g, ok := out.(*ZAcronyms)
+		vAssert("reads-back", err == nil && ok && g != nil && g.ID == x && g.URLPath == 2 && g.HTTPCode == 3 && g.X == 4 && g.A1 == 5 && g.Snake_Id == 6 && g.UserID == 7 && g.UserId == 8)
+		return
+	}
+	if what == 0 {
 		v := &ZEdgeNames{Alpha: x, Zulu: 2, Mid: 3, Azz: 4, Zaa: 5, B: 6}
 		_, nameMap := vExtract(v)
 		bs, err := ToBytes(v, nameMap)
